@@ -350,11 +350,14 @@ def check_triple(rec, ra, rb, rc):
         if left != right:
             rec.fail('lattice:pow:assoc', case, f'{left!r} != {right!r}')
         ab, bc = a & b, b & c
-        if u.is_address(ab) and u.is_address(bc):
+        # (#NULL! is the bottom of the lattice: an empty intersection stays
+        # empty when it is intersected again)
+        if True:
             left, right = ab & c, a & bc
             if left != right:
                 rec.fail('lattice:and:assoc', case, f'{left!r} != {right!r}')
-            m = model_and(model_and(ra, rb), rc)
+            inner = model_and(ra, rb)
+            m = model_and(inner, rc) if inner is not None else None
             if (m is None) != (left == u.NULL_ERROR):
                 rec.fail('lattice:and:assoc-value', case, f'{left!r} vs {m}')
     except Exception as exc:
